@@ -330,16 +330,22 @@ def run_case(case, ctx):
         full = make_sequence(cf, list(mid_gray(vp, cf["picture_coding_mode"])))
         pic_units = [du for du in full["data_units"] if "picture_parse" in du]
         ctx.count("cases_with_pictures")
+    # one case in three uses the yielded header objects themselves, one after another, without copying them first (each
+    # yielded header is its own description: serialising one must not change what the next one encodes)
+    in_place = ctx.rng.random() < 0.34
+    if in_place:
+        ctx.count("cases_serialised_in_place")
     for hi, h in enumerate(headers):
+        h_before = copy.deepcopy(h)  # as yielded (in-place serialisation fills in AUTO fields of h itself)
         seq = B.Sequence(data_units=[
-            B.DataUnit(parse_info=B.ParseInfo(parse_code=ParseCodes.sequence_header), sequence_header=copy.deepcopy(h)),
+            B.DataUnit(parse_info=B.ParseInfo(parse_code=ParseCodes.sequence_header), sequence_header=h if in_place else copy.deepcopy(h)),
         ] + (copy.deepcopy(pic_units) if pic_units else []) + [
             B.DataUnit(parse_info=B.ParseInfo(parse_code=ParseCodes.end_of_sequence)),
         ])
         if pic_units:
             ctx.count("headers_followed_by_pictures")
         try:
-            data = vc2util.serialise([seq])
+            data = vc2util.serialise([seq], in_place=in_place)
         except Exception as e:
             ctx.violation("header-not-serialisable:" + type(e).__name__, "header %d failed to serialise: %r" % (hi, e), detail=repr(h))
             continue
@@ -368,6 +374,13 @@ def run_case(case, ctx):
             # still compare the decoded format: fix a version the level admits and stop at the header hook
             allowed = [x for x in (1, 2, 3) if x in v.exc.allowed_values]
             if allowed:
+                if in_place:
+                    # the description just serialised in place carries filled-in offsets: start again from the header as yielded
+                    seq = B.Sequence(data_units=[
+                        B.DataUnit(parse_info=B.ParseInfo(parse_code=ParseCodes.sequence_header), sequence_header=copy.deepcopy(h_before)),
+                    ] + (copy.deepcopy(pic_units) if pic_units else []) + [
+                        B.DataUnit(parse_info=B.ParseInfo(parse_code=ParseCodes.end_of_sequence)),
+                    ])
                 seq["data_units"][0]["sequence_header"]["parse_parameters"]["major_version"] = allowed[0]
                 data = vc2util.serialise([seq])
                 cap.clear()
